@@ -271,15 +271,259 @@ pub fn def() -> CheckDef {
     CheckDef {
         property: "C05",
         level: "exploration",
-        rule: "seeded clusters of 3..=N (quick 8, thorough 16) renewable instances with notify_down_members and periodic_announce_to_down_members (1-3 targets): every two-sided split shape with a side of >= 2, or one member isolated (both directions / inbound only / outbound only) or stalled; cut at a random instant, held for >= (2n+2) probe periods + suspect_to_down_after, healed with datagrams in flight; runs whose fault did not make the sides declare each other Down are discarded and counted; non-trivial = precondition met; distinct = abstracted event log of the cluster",
+        rule: "seeded clusters of 3..=N (quick 8, thorough 16) renewable instances with notify_down_members and periodic_announce_to_down_members (1-3 targets): every two-sided split shape with a side of >= 2, or one member isolated (both directions / inbound only / outbound only) or stalled; cut at a random instant, held for >= (2n+2) probe periods + suspect_to_down_after, healed with datagrams in flight; runs whose fault did not make the sides declare each other Down are discarded and counted; non-trivial = precondition met; distinct = abstracted event log of the cluster. Second batch (faults-then-quiet): a formed cluster under a random subset of {latency beyond probe_rtt, loss, duplication, partitions, crash/restart with or without snapshot, stalls, user identity changes, custom broadcasts} for 10..60 probe periods; then the faults stop (network within the premise, crashed processes restarted, idle instances retry their bootstrap announce) and every live instance must list every other one's current identity within the same bound + 2 suspect_to_down_after",
         assumptions: vec![
             "outside the partition the premise of C02 holds (latency < probe_rtt/4, exact timers, no loss)".into(),
             "bound after heal: (n+8) announce-to-down periods + (2n+1) probe periods; empirical, worst observation reported as c05_convergence_permille_of_bound".into(),
             "remove_down_after = 24h (Down records outlive the partition)".into(),
+            "faults-then-quiet: max_packet_size 1400 and periodic announce on (otherwise discovery of restarted members is a matter of luck: K-C02-1); no corruption (it fabricates identities); leave_cluster is not a fault to recover from".into(),
         ],
         real_components: "n real Foca instances (all of src/), the run's codec; all monitors attached to every node",
         stub_components: "network (latency, directional partition matrix, stall) and clock are the simulator",
-        batches: vec![Batch { scenario: &Heal, quick: 8_000, thorough: 300_000 }],
+        batches: vec![Batch { scenario: &Heal, quick: 8_000, thorough: 300_000 }, Batch { scenario: &Quiesce, quick: 3_000, thorough: 150_000 }],
         extra: None,
+    }
+}
+
+// ---------------------------------------------------------------------------------------------
+// Bounded liveness after arbitrary faults: chaos for a while, then the faults stop.
+
+use crate::chaos::{gen_case as chaos_case, Op as ChaosOp, P as ChaosP};
+
+#[derive(Clone, Debug, serde::Serialize, serde::Deserialize)]
+pub struct QP {
+    pub chaos: ChaosP,
+    pub quiet_periods: u64,
+}
+
+/// Faults of every kind for a while (loss, duplication, partitions, crash/restart, stalls, skew),
+/// then a quiet network: every live instance that is idle re-announces to a live member (what any
+/// agent does), and the cluster must converge within the bound.
+pub struct Quiesce;
+impl Scenario for Quiesce {
+    fn name(&self) -> &'static str {
+        "faults-then-quiet"
+    }
+    fn gen(&self, seed: u64, tier: Tier, _i: u64) -> Case {
+        let (mut p, mut ops) = chaos_case(seed, tier);
+        // the auto-rejoin configuration of the property
+        p.wc.policy = Policy { renew: RenewMode::Next, mask: u64::MAX, var_ids: p.wc.policy.var_ids };
+        p.wc.cfg.notify_down_members = true;
+        let period = p.wc.cfg.probe_period.as_millis() as u64;
+        let mut s = Stream::new(seed, "c05-quiesce");
+        if p.wc.cfg.periodic_announce_to_down_members.is_none() {
+            p.wc.cfg.periodic_announce_to_down_members = Some(PeriodicParams { frequency: Duration::from_millis(s.range(period, 4 * period)), num_members: NonZeroUsize::new(s.range(1, 3) as usize).unwrap() });
+        }
+        p.wc.cfg.remove_down_after = Duration::from_secs(86_400);
+        // discovery of restarted members must not depend on luck (K-C02-1): packets large enough to
+        // feed the cluster and periodic announce on
+        p.wc.cfg.max_packet_size = NonZeroUsize::new(1400).unwrap();
+        if p.wc.cfg.periodic_announce.is_none() {
+            p.wc.cfg.periodic_announce = Some(PeriodicParams { frequency: Duration::from_millis(s.range(period, 4 * period)), num_members: NonZeroUsize::new(1).unwrap() });
+        }
+        p.wc.net.corrupt_ppm = 0; // corruption fabricates identities (see DESIGN 11.2); not part of this premise
+        // leaving is a deliberate, permanent departure: not a fault to recover from
+        // the cluster is formed before the faults start (every node restored with the full membership)
+        ops.retain(|(_, o)| !matches!(o, ChaosOp::Leave { .. } | ChaosOp::Skew { .. } | ChaosOp::Announce { .. }));
+        let q = QP { chaos: p, quiet_periods: 0 };
+        Case { property: "C05".into(), scenario: self.name().into(), seed, params: serde_json::to_value(q).unwrap(), steps: ops.iter().map(|o| serde_json::to_value(o).unwrap()).collect(), explicit: true }
+    }
+    fn run(&self, case: &Case) -> RunOut {
+        let q: QP = serde_json::from_value(case.params.clone()).expect("C05 quiesce params");
+        let ops: Vec<(u64, ChaosOp)> = case.steps.iter().map(|v| serde_json::from_value(v.clone()).expect("chaos op")).collect();
+        let p = &q.chaos;
+        let mut out = RunOut::default();
+        let mut w = World::new(p.wc.clone(), case.seed);
+        let n = p.wc.n;
+        for a in 1..=n as u16 {
+            w.spawn(a, p.wc.gen0);
+        }
+        for (i, (t, _)) in ops.iter().enumerate() {
+            w.schedule_op(*t * MS, i);
+        }
+        w.bootstrap_full();
+        const OP_QUIET: usize = 1_000_000;
+        let t_quiet = (p.duration_ms + 1) * MS;
+        w.schedule_op(t_quiet, OP_QUIET);
+        let period = p.wc.cfg.probe_period.as_nanos() as u64;
+        let suspect = p.wc.cfg.suspect_to_down_after.as_nanos() as u64;
+        let announce = p.wc.cfg.periodic_announce_to_down_members.as_ref().unwrap().frequency.as_nanos() as u64;
+        let announce = announce.max(p.wc.cfg.periodic_announce.as_ref().map(|x| x.frequency.as_nanos() as u64).unwrap_or(0));
+        let bound = (n as u64 + 8) * announce + (2 * n as u64 + 1) * period + 2 * suspect;
+        let mut saved: std::collections::BTreeMap<u16, Vec<Member<crate::id::SimId>>> = Default::default();
+        let mut quiet = false;
+        let mut converged_at = None;
+        let mut vs: Vec<Violation> = Vec::new();
+        let mut notes_seen = 0;
+        while let Some(t) = w.peek_time() {
+            if quiet && t > t_quiet + bound + period {
+                break;
+            }
+            match w.step() {
+                Err(OP_QUIET) => {
+                    quiet = true;
+                    w.heal();
+                    w.wc.net.drop_ppm = 0;
+                    w.wc.net.dup_ppm = 0;
+                    // the network is healthy again: latency back within the premise (< probe_rtt / 4)
+                    let healthy = (p.wc.cfg.probe_rtt.as_nanos() as u64 / 4).saturating_sub(1).max(1);
+                    w.wc.net.lat_max_ns = w.wc.net.lat_max_ns.min(healthy);
+                    w.wc.net.lat_min_ns = w.wc.net.lat_min_ns.min(w.wc.net.lat_max_ns);
+                    for i in 0..n {
+                        w.stalled_until[i] = 0;
+                    }
+                    // whoever is down comes back (a supervisor restarts crashed processes)
+                    for a in 1..=n as u16 {
+                        if !w.alive(a) {
+                            let gen = w.gens[World::idx(a)] + 1;
+                            w.spawn(a, gen);
+                        }
+                    }
+                    // idle instances retry their bootstrap announce, as any agent does
+                    let live = w.live_addrs();
+                    for a in &live {
+                        let o = &w.proc(*a).unwrap().obs;
+                        if o.num_members == 0 || !o.connected() {
+                            let to = live.iter().find(|b| *b != a).copied();
+                            if let Some(to) = to {
+                                let dst = w.id_of(to);
+                                w.call(*a, Input::Announce(dst));
+                                out.stats.inc("c05_quiesce_bootstrap_retry");
+                            }
+                        }
+                    }
+                }
+                Err(i) => match &ops[i].1 {
+                    ChaosOp::Announce { from, to } => {
+                        if *from != *to && w.alive(*from) {
+                            let dst = w.id_of(*to);
+                            w.call(*from, Input::Announce(dst));
+                        }
+                    }
+                    ChaosOp::Partition { groups } => w.partition(groups),
+                    ChaosOp::Heal => w.heal(),
+                    ChaosOp::Crash { node, save } => {
+                        if let Some(st) = w.crash(*node) {
+                            if *save {
+                                saved.insert(*node, st);
+                            }
+                        }
+                    }
+                    ChaosOp::Restart { node, restore, announce_to, .. } => {
+                        if !w.alive(*node) {
+                            let gen = w.gens[World::idx(*node)] + 1;
+                            w.spawn(*node, gen);
+                            if *restore {
+                                if let Some(st) = saved.get(node) {
+                                    w.call(*node, Input::ApplyMany(st.clone(), false));
+                                }
+                            }
+                            if *announce_to != *node {
+                                let dst = w.id_of(*announce_to);
+                                w.call(*node, Input::Announce(dst));
+                            }
+                        }
+                    }
+                    ChaosOp::Stall { node, ms } => w.stalled_until[World::idx(*node)] = w.now + ms * MS,
+                    ChaosOp::Gossip { node } => {
+                        w.call(*node, Input::Gossip);
+                    }
+                    ChaosOp::Broadcast { node } => {
+                        w.call(*node, Input::Broadcast);
+                    }
+                    ChaosOp::AddBroadcast { node, key, version, len } => {
+                        let mut item = vec![*key, *version];
+                        item.resize((*len).max(2), 0x5a);
+                        w.call(*node, Input::AddBroadcast(item));
+                    }
+                    ChaosOp::Renew { node } => {
+                        if w.alive(*node) {
+                            let cur = w.id_of(*node);
+                            w.call(*node, Input::ChangeIdentity(crate::id::SimId::new(cur.addr, cur.gen + 1)));
+                        }
+                    }
+                    ChaosOp::Leave { .. } | ChaosOp::Skew { .. } => {}
+                },
+                Ok(None) => break,
+                Ok(Some(_)) => {}
+            }
+            while notes_seen < w.notes.len() {
+                let (t, a, note) = w.notes[notes_seen].clone();
+                notes_seen += 1;
+                if matches!(note, OwnedNotification::Defunct) {
+                    vs.push(Violation { property: "C05", tag: "C05/defunct".into(), detail: format!("node {a} (renewable identity) notified Defunct at t={}ms", t / MS), at: t });
+                }
+            }
+            if !vs.is_empty() {
+                break;
+            }
+            if quiet && w.converged() && w.live_addrs().iter().all(|a| w.proc(*a).unwrap().obs.connected() || n == 1) {
+                converged_at = Some(w.now);
+                break;
+            }
+        }
+        if vs.is_empty() && quiet {
+            out.nontrivial = true;
+            match converged_at {
+                Some(t) => {
+                    out.stats.max("c05_quiesce_convergence_permille_of_bound", (t - t_quiet) * 1000 / bound);
+                }
+                None => {
+                    let live = w.live_addrs();
+                    let all_idle = live.iter().all(|a| {
+                        let o = &w.proc(*a).unwrap().obs;
+                        o.num_members == 0 && o.snap.connection_state == 0
+                    });
+                    let holds_stale_down = |a: u16, b: u16| w.proc(a).unwrap().obs.slot(b).is_some_and(|m| m.state() == State::Down && w.id_of(b).gen > m.id().gen);
+                    let mutually_superseded = live.iter().any(|a| live.iter().any(|b| a != b && holds_stale_down(*a, *b) && holds_stale_down(*b, *a)));
+                    let mut detail = String::new();
+                    for a in &live {
+                        let view = w.view(*a);
+                        for b in &live {
+                            if a != b && !view.contains(&w.id_of(*b)) && detail.is_empty() {
+                                detail = format!("node {a} (now {}) holds {:?} for node {b} (now {})", w.id_of(*a), w.proc(*a).unwrap().obs.slot(*b), w.id_of(*b));
+                            }
+                        }
+                    }
+                    let conns: Vec<String> = live.iter().map(|a| { let o = &w.proc(*a).unwrap().obs; format!("{}:{}:{}members", o.id, ["disconnected", "connected", "defunct"][o.snap.connection_state as usize], o.num_members) }).collect();
+                    let tag = if all_idle && mutually_superseded { "C05/no-convergence-after-faults-stop:every-instance-idle:mutually-superseded" } else { "C05/no-convergence-after-faults-stop" };
+                    vs.push(Violation { property: "C05", tag: tag.into(), detail: format!("{} ms after the faults stopped: {detail}; instances: {:?}", (w.now - t_quiet) / MS, conns), at: w.now });
+                }
+            }
+        }
+        out.signature = w.sig.0;
+        out.log_hash = w.log.0;
+        out.sim_ns = w.now;
+        out.stats.merge(&w.stats);
+        out.stats.add("events", w.events);
+        vs.extend(w.violations.clone());
+        out.violations = vs;
+        out
+    }
+    fn shrink(&self, case: &Case) -> Vec<Case> {
+        let q: QP = serde_json::from_value(case.params.clone()).unwrap();
+        let mut v = Vec::new();
+        let mut push = |x: QP| v.push(Case { params: serde_json::to_value(x).unwrap(), ..case.clone() });
+        if q.chaos.wc.net.drop_ppm != 0 {
+            let mut x = q.clone();
+            x.chaos.wc.net.drop_ppm = 0;
+            push(x);
+        }
+        if q.chaos.wc.net.dup_ppm != 0 {
+            let mut x = q.clone();
+            x.chaos.wc.net.dup_ppm = 0;
+            push(x);
+        }
+        if q.chaos.wc.cfg.periodic_gossip.is_some() {
+            let mut x = q.clone();
+            x.chaos.wc.cfg.periodic_gossip = None;
+            push(x);
+        }
+        if q.chaos.wc.cfg.periodic_announce.is_some() {
+            let mut x = q.clone();
+            x.chaos.wc.cfg.periodic_announce = None;
+            push(x);
+        }
+        v
     }
 }
